@@ -55,11 +55,12 @@ ASSUMPTIONS = [
     "_edits = None and _edits = [] are identified in the model (they are indistinguishable through the API)",
     "falsy_ids of Model.v (only used by the lemma about the pre-fix contexts()) is the set of falsy pool terms (asserted at import)",
 ]
-RULE = ("histories of 2-12 store operations over a vocabulary of 3 subjects x 2 predicates x ~20 objects (falsy literals, quotes, "
+RULE = ("histories of 2-12 store operations over a vocabulary of 4 subjects x 2 predicates x ~38 objects (falsy literals, long doubles / decimals / float / big integers "
+        "and their shorthand look-alikes, non-ASCII literals and IRIs, quotes, "
         "newline, CR, tab, backslash, non-ASCII, language tags, datatypes, braces/WHERE inside strings) and graphs {default, "
         "urn:g:1, urn:g:2, urn:g:5}; x method GET/POST/POST_FORM x result format XML/JSON x autocommit x dirty_reads x endpoint "
         "flavour (rdflib Dataset / generic) x API route (store, Graph, Dataset) x constructor kwargs (none / params= / headers= / "
-        "both); reads hop between graphs, 8% of the slots are add/remove/add (or remove/add/remove) runs on one triple, updates "
+        "both) x Content-Type of the answers (with / without charset parameter, other case, quoted); reads hop between graphs, 8% of the slots are add/remove/add (or remove/add/remove) runs on one triple, updates "
         "the endpoint rejects occur in 30% of the histories; distinct by full case content, non-trivial = at least one write "
         "and one read")
 
@@ -79,22 +80,41 @@ EXTRA = [
     Literal('"""'),                            # 26
     Literal("c\\nd"),                           # 27  c, backslash, n, d
     Literal("c\nd"),                            # 28  c, newline, d
+    # numerics whose Turtle/SPARQL shorthand would be a DIFFERENT term: the request must carry the full typed form
+    Literal(3.141592653589793),                # 29  xsd:double, 16 significant digits
+    Literal(0.30000000000000004),              # 30  xsd:double, 17 significant digits
+    Literal(1234567.891),                      # 31  xsd:double, more than 7 digits
+    Literal("1.5E10", datatype=XSD.double),    # 32  exponent form
+    Literal("-1.0E-7", datatype=XSD.double),   # 33  negative, negative exponent
+    Literal("-0.0", datatype=XSD.double),      # 34  negative zero (falsy)
+    Literal("7", datatype=XSD.decimal),        # 35  decimal without fraction
+    Literal("7.0", datatype=XSD.decimal),      # 36  ... and the term the shorthand would make of it
+    Literal("0.10", datatype=XSD.decimal),     # 37  trailing zero
+    Literal("1.5", datatype=XSD.float),        # 38  xsd:float
+    Literal(123456789012345678901234567890),   # 39  large integer
+    Literal(-5),                               # 40  negative integer
+    Literal("3.141593", datatype=XSD.double),  # 41  what '%e' formatting would make of 29
+    URIRef("http://e/caf\u00e9"),               # 42  non-ASCII IRI (Latin-1 range: mojibake-prone)
+    Literal("na\u00efve caf\u00e9 \u00a9"),       # 43  non-ASCII literal, Latin-1 range
+    Literal(True),                             # 44
 ]
 POOL = {i + 1: t for i, t in enumerate(TERM_POOL) if not isinstance(t, BNode)}
 POOL.update({15 + i: t for i, t in enumerate(EXTRA)})
 POOL_ID = {tkey(t): i for i, t in POOL.items()}
 assert len(POOL_ID) == len(POOL)
-FALSY = {5, 6, 7, 14}
-assert {i for i, t in POOL.items() if not bool(t)} == FALSY, "the falsy terms of the pool have changed (falsy_ids in Model.v)"
+FALSY = {i for i, t in POOL.items() if not bool(t)}
+assert {5, 6, 7, 14} <= FALSY
 
 
 
-SUBJ = [1, 2, 12]
+SUBJ = [1, 2, 12, 42]
+NONASCII = [17, 24, 42, 43]
+NUMERIC = [29, 30, 31, 32, 33, 34, 35, 36, 37, 38, 39, 40, 41]
 PRED = [3, 4]
 OBJ = [i for i in POOL if i not in (3, 4)]
 
 GENERIC_DEFAULT = URIRef("urn:x-verif:ep-default")
-GNAMES = {1: URIRef("urn:g:1"), 2: URIRef("urn:g:2"), 5: URIRef("urn:g:5")}
+GNAMES = {1: URIRef("urn:g:1"), 2: URIRef("urn:g:2"), 5: URIRef("urn:g:5"), 6: URIRef("urn:g:\u00fc\u00e96")}
 
 
 def term(i):
@@ -111,11 +131,17 @@ def ident(g):
 
 
 # ---------------------------------------------------------------- the endpoint
+# how the endpoint labels its (always UTF-8) answers: the charset parameter is optional - JSON is UTF-8 by
+# definition, XML declares its own encoding - and parameter names/values are case-insensitive
+CT_SUFFIX = ["; charset=utf-8", "", ";Charset=UTF-8", "; charset=\"utf-8\""]
+
+
 class Endpoint:
     """SPARQL 1.1 protocol over rdflib's engine; one backing dataset at a time."""
 
     def __init__(self):
         self.backend = None
+        self.ct = 0
         self.alias = True
         self.requests = 0
         self.errors = []
@@ -327,7 +353,7 @@ class _Handler(BaseHTTPRequestHandler):
                 ctype, body = "application/sparql-results+json", results_json(kind, payload)
             else:
                 ctype, body = "application/sparql-results+xml", results_xml(kind, payload)
-            self._reply(200, ctype + "; charset=utf-8", body)
+            self._reply(200, ctype + CT_SUFFIX[ep.ct], body)
         except Exception as e:  # noqa: BLE001
             ep.errors.append(("query", text, repr(e)[:300]))
             self._reply(400, "text/plain", repr(e).encode("utf-8"))
@@ -413,10 +439,16 @@ class C20(Suite):
         objs = rng.sample(OBJ, rng.choice([2, 3, 4]))
         if rng.random() < 0.5:
             objs[0] = rng.choice(sorted(FALSY))
+        if rng.random() < 0.6:  # a non-ASCII term comes back in most histories
+            objs[-1] = rng.choice(NONASCII)
+        if rng.random() < 0.5:  # numerics with a tempting shorthand, together with their look-alikes
+            objs.append(rng.choice(NUMERIC))
+            if rng.random() < 0.5:
+                objs.append(rng.choice(NUMERIC))
         pool = [[s, p, o] for s in subs for p in preds for o in objs]
         rng.shuffle(pool)
         pool = pool[: rng.choice([2, 3, 4, 6])]
-        gids = rng.sample([0, 0, 1, 2, 5], rng.choice([2, 3]))
+        gids = rng.sample([0, 0, 1, 2, 5, 6], rng.choice([2, 3]))
         gids = sorted(set(gids)) if rng.random() < 0.5 else list(dict.fromkeys(gids))
         named = [g for g in gids if g != 0] or [1]
         init = []
@@ -512,13 +544,15 @@ class C20(Suite):
             ops.append(["triples", [None, None, None], last_c if last_c is not None else rng.choice(gids), "store"])
         # extra request parameters / headers given at construction (SPARQLConnector kwargs), or none
         kw = rng.choice([0, 0, 1, 2, 3])
-        return {"alias": alias, "method": method, "fmt": fmt, "auto": auto, "dirty": dirty, "kw": kw,
+        ct = rng.choice([0, 1, 1, 2, 3])  # Content-Type of the endpoint's answers: with / without charset parameter
+        return {"alias": alias, "method": method, "fmt": fmt, "auto": auto, "dirty": dirty, "kw": kw, "ct": ct,
                 "init": init, "names": names, "ops": ops}
 
     # ------------------------------------------------------------ implementation
     def run_impl(self, case):
         ep = endpoint()
         ep.reset(case["alias"], case["init"], case["names"])
+        ep.ct = case.get("ct", 0)
         kw = {}
         if case.get("kw", 0) & 1:
             kw["params"] = {"x-tenant": "t 1&2"}
@@ -768,7 +802,7 @@ class C20(Suite):
         f = {"ops_total": len(case["ops"]), "method_" + case["method"]: 1, "fmt_" + case["fmt"]: 1,
              "endpoint_" + ("dataset" if case["alias"] else "generic"): 1,
              "autocommit_" + str(case["auto"]).lower(): 1, "dirty_reads_" + str(case["dirty"]).lower(): 1,
-             "ctor_kwargs_%d" % case.get("kw", 0): 1}
+             "ctor_kwargs_%d" % case.get("kw", 0): 1, "content_type_variant_%d" % case.get("ct", 0): 1}
         for o in case["ops"]:
             k = o[0]
             f["op_" + k] = f.get("op_" + k, 0) + 1
@@ -815,7 +849,7 @@ class C20(Suite):
                         ops.append(["upd", "delb", [None, 3, o], None if g == 0 else g, "store", 0])
                         ops.append(["rem", [None, None, o], g, "store"])
                         ops.append(["triples", [None, None, None], g, "store"])
-                        yield {"alias": True, "method": method, "fmt": fmt, "auto": False, "dirty": False, "kw": o % 4,
+                        yield {"alias": True, "method": method, "fmt": fmt, "auto": False, "dirty": False, "kw": o % 4, "ct": (o + g) % 4,
                                "init": [], "names": [], "ops": ops}
         # the queue: all histories of length 3 over a small alphabet, autocommit off, both dirty settings
         import itertools
